@@ -439,6 +439,66 @@ pub fn judge(s: &State) -> Verdict {
     }
 }
 
+/// Judge every state of a level on all cores under a watchdog: a state whose two expansions
+/// take longer than `DX_C16_STATE_TIMEOUT` seconds (default 60) is reported as a violation
+/// (expansion does not terminate) and the run ends with exit 1 - the hung thread cannot be joined.
+fn judge_all(frontier: &[State], progress: &AtomicU64) -> Vec<Verdict> {
+    use std::sync::atomic::AtomicUsize;
+    let n = frontier.len();
+    let nthreads = threads().max(1).min(n.max(1));
+    let next = AtomicUsize::new(0);
+    let limit: u64 = std::env::var("DX_C16_STATE_TIMEOUT").ok().and_then(|s| s.parse().ok()).unwrap_or(60);
+    // per worker: (index + 1 of the state in progress, start time in ms since `t0`)
+    let current: Vec<(AtomicUsize, AtomicU64)> = (0..nthreads).map(|_| (AtomicUsize::new(0), AtomicU64::new(0))).collect();
+    let t0 = std::time::Instant::now();
+    let done = std::sync::atomic::AtomicBool::new(false);
+    let out: Mutex<Vec<Option<Verdict>>> = Mutex::new((0..n).map(|_| None).collect());
+    std::thread::scope(|sc| {
+        for w in 0..nthreads {
+            let (next, current, out) = (&next, &current, &out);
+            sc.spawn(move || loop {
+                let i = next.fetch_add(1, Ordering::Relaxed);
+                if i >= n {
+                    current[w].0.store(0, Ordering::Relaxed);
+                    break;
+                }
+                current[w].1.store(t0.elapsed().as_millis() as u64, Ordering::Relaxed);
+                current[w].0.store(i + 1, Ordering::Relaxed);
+                let v = judge(&frontier[i]);
+                progress.fetch_add(1, Ordering::Relaxed);
+                current[w].0.store(0, Ordering::Relaxed);
+                out.lock().unwrap()[i] = Some(v);
+            });
+        }
+        // watchdog
+        let (current, done, next) = (&current, &done, &next);
+        sc.spawn(move || {
+            while !done.load(Ordering::Relaxed) {
+                std::thread::sleep(std::time::Duration::from_millis(200));
+                let now = t0.elapsed().as_millis() as u64;
+                for c in current.iter() {
+                    let i = c.0.load(Ordering::Relaxed);
+                    if i > 0 && now.saturating_sub(c.1.load(Ordering::Relaxed)) > limit * 1000 {
+                        let s = &frontier[i - 1];
+                        let dir = crate::report::root().join("replay").join("C16");
+                        let _ = std::fs::create_dir_all(&dir);
+                        let p = dir.join("hang.json");
+                        let _ = std::fs::write(&p, serde_json::to_string_pretty(&json!({"property": "C16", "symptom": "expansion-does-not-terminate", "case": {"entry": s.entry.name(), "attr": s.attr, "item": s.item, "reached_via": s.via, "depth": s.depth}})).unwrap());
+                        println!("  expansion-does-not-terminate :: no result after {limit} s for [{}] #[derive_ex({})] {}", s.via, s.attr, s.item.chars().take(200).collect::<String>());
+                        println!("VIOLATION property=C16 replay={}", p.to_string_lossy());
+                        std::process::exit(1);
+                    }
+                }
+                if current.iter().all(|c| c.0.load(Ordering::Relaxed) == 0) && next.load(Ordering::Relaxed) >= n {
+                    break;
+                }
+            }
+        });
+    });
+    done.store(true, Ordering::Relaxed);
+    out.into_inner().unwrap().into_iter().map(|v| v.expect("judged")).collect()
+}
+
 pub fn run(ctx: &Ctx, rep: &mut Report) {
     let thorough = ctx.tier.is_thorough();
     rep.rule = "state = a (entry point, argument list, item) triple reached from the seed corpus (every derive_ex item of the test-suite and documentation + generator output) by structure-aware mutation operators (delete/duplicate/swap/replace of attributes, arguments, fields, variants, generic parameters; where-clause / generics deletion; entry switch; unsupported item kinds); breadth-first with a seen-set on canonical token text; every state is expanded twice; distinct = states; non-trivial = the expansion produced at least one item or error".into();
@@ -454,19 +514,13 @@ pub fn run(ctx: &Ctx, rep: &mut Report) {
     let mut seen: BTreeSet<(u64, u64)> = BTreeSet::new();
     frontier.retain(|s| seen.insert(key(s)));
     rep.set("seeds", json!(frontier.len()));
-    // watchdog for non-termination
-    let current: Mutex<Vec<(std::time::Instant, String)>> = Mutex::new(Vec::new());
-    let _ = &current;
     let progress = AtomicU64::new(0);
     let mut depth = 0u8;
     let mut capped = false;
     let mut per_depth = Vec::new();
     while !frontier.is_empty() {
         // judge this level
-        let verdicts = par_map(&frontier, threads(), |_, s| {
-            progress.fetch_add(1, Ordering::Relaxed);
-            judge(s)
-        });
+        let verdicts = judge_all(&frontier, &progress);
         let mut n_err = 0u64;
         for (s, v) in frontier.iter().zip(verdicts.iter()) {
             rep.stats.states += 1;
